@@ -12,6 +12,7 @@ import Proofs.InterpBridge
 import Proofs.InterpUnroll
 import Proofs.InterpExamples
 import Proofs.InterpShape
+import Proofs.InterpShapeMore
 
 /-!
   C04 — Interpreted OAL computes what the action language defines.
@@ -1120,6 +1121,145 @@ example : varAfter (swallowList [okStmt, failingStmt, okStmt] cfgK) "n" = some (
       some (.int 1) ∧
     (match iWs failingStmt [.tryExcept [.returnDispatch] "KeyError" [.logError]] cfgK with
       | some (.ok (.raised, _)) => true | _ => false) = true := by
+  decide +kernel
+
+end PyxProps.C04
+
+/-! ==========================================================================================================
+  SOURCE TIE, fourth part (builder 8): the handlers that no theorem above NAMED — the generator accept_NavigationListNode (the
+  generic interpreter extended, additively, by children whose handlers return a step closure: `Node.pchildren`, `PV.pchild`),
+  accept_BodyNode / accept_ElseNode / accept_ElIfListNode as equations of their own, accept_RealNode, the inventory of the
+  translated handlers — and relate / unrelate (+ using) as EXACT equations (error text included) — appended section
+  ========================================================================================================== -/
+namespace PyxProps.C04
+open Pyx.Interp Pyx.IShape Pyx.Gen.InterpShape
+
+/-- accept_NavigationListNode (`for child in node.children: yield self.accept(child)`), every child a NavigationStepNode run
+    through the interpreted accept_NavigationStepNode: for EVERY list of raw steps (key letter, rel id, phrase with its ticks)
+    the generator yields, in the order of the children, one step closure per child, the phrase without its ticks — and it is
+    `pure`: no configuration is touched, so Python's lazy interleaving of the generator with the consumer's loop is not
+    observable.  Second clause: what it yields IS the field `steps "navigation_chain"` of the node `select_related_as_in_source`
+    is stated with (so that theorem's chain is the chain the source delivers for the decoded steps) -/
+theorem navigation_list_as_in_source (C : Ctx) (raws : List RawStep) (many : Bool) (v : String) (h : M Val) (wh : Option (M Val)) :
+    handlerG C (navListNode C raws) accept_NavigationListNode = pure (raws.map (fun r => PV.step (decodeStep r))) ∧
+    handlerG C (navListNode C raws) accept_NavigationListNode =
+      pure (((selRelNode many v h (raws.map decodeStep) wh).steps "navigation_chain").map PV.step) ∧
+    (∀ r : RawStep, decodeStep r = ⟨r.1, r.2.1, stripTicks r.2.2⟩) := by
+  refine ⟨navigationList_eq C raws, ?_, fun _ => rfl⟩
+  rw [navigationList_eq]
+  simp only [selRelNode, ↓reduceIte, List.map_map]
+  rfl
+
+/-- accept_BodyNode, for every body and configuration: enter_scope (the scope head becomes one empty block), the block;
+    ReturnException and StopException — and nothing else — are caught, then leave_scope; a BreakException / ContinueException
+    that no loop caught passes through and leave_scope is NOT reached (`bodySem`; `body_as_in_source` says what `Spec` makes of
+    that: a domain error) -/
+theorem body_node_as_in_source (C : Ctx) (rec : Oracle) (body : Block) :
+    handlerS C (bodyNode rec body) accept_BodyNode = (do
+      M.setEnv [[]]
+      let o ← execBlock rec body
+      match o with
+      | .brk => pure .brk
+      | .cont => pure .cont
+      | _ => do
+        M.setEnv []
+        pure .normal) :=
+  bodyNode_eq C rec body
+
+/-- accept_ElseNode is its block, with the block's outcome -/
+theorem else_as_in_source (C : Ctx) (rec : Oracle) (b : Block) :
+    handlerS C { acceptS := stmtChildAt "block" (blockChild rec b) } accept_ElseNode = execBlock rec b :=
+  else_eq C rec b
+
+/-- accept_ElIfListNode over children that are the interpreted accept_ElIfNode, as an equation of its own, for every chain:
+    the children IN ORDER; the first whose condition holds runs its block and ends the search with True (later conditions are
+    not evaluated); a control exception from a condition's block leaves the list; no condition true: None (`firstTaken`,
+    spelled out in the second and third clause) -/
+theorem elif_list_as_in_source (C : Ctx) (rec : Oracle) (cb : Expr × Block) (elifs : List (Expr × Block)) :
+    elifListSem C rec elifs = firstTaken rec elifs ∧
+    firstTaken rec [] = pure (.normal, false) ∧
+    firstTaken rec (cb :: elifs) = (do
+      let x ← elifSem rec cb
+      match x.1 with
+      | .normal => if x.2 then pure (.normal, true) else firstTaken rec elifs
+      | o => pure (o, false)) :=
+  ⟨elifList_eq C rec elifs, rfl, rfl⟩
+
+/-- accept_RealNode (`float(node.value)`) is in the IR and OUTSIDE the modelled subset (`Val` has no reals, Decode.lean builds no
+    real literal): the error ending is the content — on every node and configuration the interpretation is the domain error
+    "reals are not modelled", nothing else -/
+theorem real_literal_as_in_source (C : Ctx) (nd : Node) (c : Cfg) :
+    handlerE C nd accept_RealNode c = some (.error ⟨"reals are not modelled"⟩) := by
+  rw [real_eq]; rfl
+
+/-- the handlers the translator found in the source NOW are exactly these 36 (a handler added to / removed from the translated
+    classes changes the lists), each named by a theorem of this file -/
+theorem handlers_inventory_as_in_source :
+    handlerNames ++ handlerNames2 =
+      ["accept_BodyNode", "accept_BlockNode", "accept_StatementListNode", "accept_ReturnNode", "accept_BreakNode",
+       "accept_ContinueNode", "accept_ControlNode", "accept_CreateObjectNode", "accept_CreateObjectNoVariableNode",
+       "accept_DeleteNode", "accept_RelateNode", "accept_RelateUsingNode", "accept_UnrelateNode", "accept_UnrelateUsingNode",
+       "accept_SelectFromNode", "accept_SelectFromWhereNode", "accept_SelectRelatedNode", "accept_SelectRelatedWhereNode",
+       "accept_SelectedAccessNode", "accept_ForEachNode", "accept_IfNode", "accept_ElIfListNode", "accept_ElIfNode",
+       "accept_ElseNode", "accept_WhileNode", "accept_AssignmentNode", "accept_BinaryOperationNode", "accept_UnaryOperationNode",
+       "accept_IntegerNode", "accept_RealNode", "accept_StringNode", "accept_BooleanNode", "accept_VariableAccessNode",
+       "accept_FieldAccessNode", "accept_NavigationStepNode", "accept_NavigationListNode"] := by
+  decide
+
+/-- relate / unrelate (+ using) EXACTLY, the text of a domain error included (the upgrade of `relate_unrelate_as_in_source`,
+    which holds up to that text).  The source looks ALL variables up before it checks the first handle, `Spec` checks each
+    handle as it is looked up; so the two report different errors exactly when an earlier variable holds a non-instance and a
+    later one is not set.  Hypotheses (`HoldsInst C c x`: IF x is found, it holds an instance handle): two variables — the
+    from variable, needed only when the to variable is not set; using — the from variable when the to or the using variable is
+    not set, and the to variable (the source relates (from, using) BEFORE it checks the to handle).  Without them the equation
+    is false: see the example below -/
+theorem relate_unrelate_exact_as_in_source (C : Ctx) (rec : Oracle) (a b rel ph u : String) (c : Cfg) :
+    (((∃ e, lookupVar C b c = some (.error e)) → HoldsInst C c a) →
+      execStep C rec (.relate a b rel (stripTicks ph)) c = handlerS C (relNode a b rel ph "") accept_RelateNode c ∧
+      execStep C rec (.unrelate a b rel (stripTicks ph)) c = handlerS C (relNode a b rel ph "") accept_UnrelateNode c) ∧
+    ((((∃ e, lookupVar C b c = some (.error e)) ∨ (∃ e, lookupVar C u c = some (.error e))) → HoldsInst C c a) →
+      HoldsInst C c b →
+      execStep C rec (.relateUsing a b rel (stripTicks ph) u) c = handlerS C (relNode a b rel ph u) accept_RelateUsingNode c ∧
+      execStep C rec (.unrelateUsing a b rel (stripTicks ph) u) c =
+        handlerS C (relNode a b rel ph u) accept_UnrelateUsingNode c) :=
+  ⟨fun h => ⟨relate_exact C rec a b rel ph c h, unrelate_exact C rec a b rel ph c h⟩,
+   fun ha hb => ⟨relateUsing_exact C rec a b rel ph u c ha hb, unrelateUsing_exact C rec a b rel ph u c ha hb⟩⟩
+
+/-! non-vacuity -/
+
+def stepsOf (r : Res (List PV)) : Option (List (Option NavStep)) :=
+  match r with
+  | some (.ok (l, _)) => some (l.map (fun p => match p with | .step s => some s | _ => none))
+  | _ => none
+
+/-- `->K[R1.'x']->KK[R2]`: two steps in the order of the children, the phrase without its ticks; a generator that breaks after
+    its first yield, or one that yields nothing, is another chain -/
+example : stepsOf (handlerG CK (navListNode CK [("K", "R1", "'x'"), ("KK", "R2", "")]) accept_NavigationListNode cfgK) =
+      some [some ⟨"K", "R1", "x"⟩, some ⟨"KK", "R2", ""⟩] ∧
+    stepsOf (handlerG CK (navListNode CK [("K", "R1", "'x'"), ("KK", "R2", "")])
+      [.forChildren "child" [.yield_ (.acceptLocal "child"), .break_]] cfgK) = some [some ⟨"K", "R1", "x"⟩] ∧
+    stepsOf (handlerG CK (navListNode CK [("K", "R1", "'x'"), ("KK", "R2", "")])
+      [.forChildren "child" [.expr (.acceptLocal "child")]] cfgK) = some [] := by
+  decide +kernel
+
+/-- a body whose block ends with an uncaught `break`: the scope is still open (one block) — leave_scope was not reached; a body
+    that returns leaves the scope -/
+example : depthAfter (handlerS CK (bodyNode (run CK 3) [.brk]) accept_BodyNode cfgK) = some 1 ∧
+    depthAfter (handlerS CK (bodyNode (run CK 3) [.ret none]) accept_BodyNode cfgK) = some 0 := by
+  decide +kernel
+
+/-- the hypotheses of `relate_unrelate_exact_as_in_source` are met on the configuration of the examples (`a`, `b` hold
+    instances), and they are NEEDED: `relate n to zz across R1` with `n` an integer and `zz` not set — `Spec` reports the
+    handle, the source the missing variable -/
+def okValOf (r : Res Val) : Option Val := match r with | some (.ok (v, _)) => some v | _ => none
+example : HoldsInst CK cfgK "a" ∧ HoldsInst CK cfgK "b" := by
+  have ha : okValOf (lookupVar CK "a" cfgK) = some (.inst ⟨"K", 0⟩) := by decide +kernel
+  have hb : okValOf (lookupVar CK "b" cfgK) = some (.inst ⟨"K", 1⟩) := by decide +kernel
+  constructor
+  · intro v h; rw [h] at ha; exact ⟨_, Option.some.inj ha⟩
+  · intro v h; rw [h] at hb; exact ⟨_, Option.some.inj hb⟩
+example : errAfter (execStep CK (run CK 0) (.relate "n" "zz" "R1" "") cfgK) = some "an instance handle is required" ∧
+    errAfter (handlerS CK (relNode "n" "zz" "R1" "" "") accept_RelateNode cfgK) = some "variable zz is not set" := by
   decide +kernel
 
 end PyxProps.C04
